@@ -30,6 +30,7 @@ PROP = {
         "a decoded control message carries replyExpected=false: the round trip is stated up to that local flag (forget_reply), which is not on the wire",
         "C03_roundtrip carries the hypothesis 10 + body length <= frame cap; the excluded class is the recorded size-edge finding (C03_roundtrip_unbounded_refuted)",
         "re-stamped siblings share one body and one decodeState: every sibling of a fresh message (constructed / decoded provenance) is framed through the buildFrameBuffers hook and written through a real connection in forward, reverse and random orders, each frame compared with that sibling's own ToBytes()",
+        "Derive() chains draw invalid arguments at every builder step (stream 128..255, errored item, W-bit on an even function) from constructed and decoded bases (incl. decoded headers no constructor produces), with a corpus violating each validation clause at each chain position; the oracle judges Build by the final requested fields (documented error order) and a successful Build by the E37 layout of exactly those fields",
         "on-the-wire equality is observed for the sends the harness performs (sync W / sync no-W / async / reply / forward sync+async / SendSECS2Message, Select.req, Linktest.req, Separate.req); writeFrame's choice of buffers is tied by the hook on every pure case",
     ],
 }
